@@ -19,6 +19,7 @@ type c14X struct {
 	B     string `json:"b"`
 	C     int    `json:"c"`     // cursor (rune index)
 	Setup int    `json:"setup"` // tokens that build B and place the cursor
+	Warm  int    `json:"warm,omitempty"` // tokens of an earlier Readline call of the same shell in which a candidate was selected and accepted
 	Abort int    `json:"abort"` // token index of the C-c (or -1)
 	Probe int    `json:"probe"` // token index of the character typed after the abort (or -1)
 }
@@ -116,6 +117,18 @@ func genC14(g *Gen, tier string, idx int) *wire.Scenario {
 		}
 		spec.Cands = append(spec.Cands, cd)
 	}
+	if typedPrefix != "" && !seen[typedPrefix] && g.P(25) {
+		// the word typed so far is itself a candidate (others extend it)
+		spec.Cands = append(spec.Cands, wire.Cand{Value: typedPrefix})
+		seen[typedPrefix] = true
+	} else if typedPrefix != "" && !uni && g.P(15) {
+		// ... or differs from one by case only
+		v := strings.ToUpper(typedPrefix[:1]) + typedPrefix[1:]
+		if !seen[v] {
+			spec.Cands = append(spec.Cands, wire.Cand{Value: v})
+			seen[v] = true
+		}
+	}
 	if g.P(15) {
 		spec.NoSpace = "/"
 	}
@@ -128,6 +141,18 @@ func genC14(g *Gen, tier string, idx int) *wire.Scenario {
 	}
 	env.Binds = g.Cat.Extra
 	x := c14X{B: B, C: c, Abort: -1, Probe: -1}
+	if g.P(25) && !uni {
+		// the shell has completed something before: an earlier Readline call selects a candidate in the menu and accepts the line
+		for _, r := range []rune(stem)[:1] {
+			sc.Script = append(sc.Script, tok(string(r), "self-insert"))
+		}
+		sc.Script = append(sc.Script, tok(g.Cat.ShortSeqFor(km, "menu-complete"), "menu-complete"))
+		if g.P(50) {
+			sc.Script = append(sc.Script, tok("\t", "menu-key"))
+		}
+		sc.Script = append(sc.Script, tok("\r", "accept-line"))
+		x.Warm = len(sc.Script)
+	}
 	if uni {
 		env.History = []wire.HistSrc{{Kind: "memory", Name: "h0", Entries: []string{B}}}
 		sc.Script = append(sc.Script, tok(g.Cat.ShortSeqFor(km, "previous-history"), "previous-history"))
@@ -166,12 +191,26 @@ func execC14(x *Ctx, sc *wire.Scenario) *wire.Result {
 	res := okResult(sc)
 	var xx c14X
 	jsonInto(sc.X, &xx)
-	out := runSession(x, sc, sc.Plan, sim.Hooks{}, false)
+	hooks := sim.Hooks{}
+	warmCalls := 0
+	if xx.Warm > 0 {
+		warmCalls = 1
+		hooks.Body = func(s *sim.Session, sh *readlineShell) {
+			s.Readline(sh)
+			s.Readline(sh)
+		}
+	}
+	out := runSession(x, sc, sc.Plan, hooks, false)
 	absorb(res, out)
 	if out.End == "PANIC" || out.End == "DEADLOCK" || out.End == "LIVELOCK" {
 		res.Counters["skipped:crash"]++
 		return res
 	}
+	if len(out.Returns) < warmCalls {
+		res.Counters["skipped:warm_up_call_did_not_return"]++
+		return res
+	}
+	out.Returns = out.Returns[warmCalls:]
 	b0 := waitAfter(out, xx.Setup)
 	if b0 == nil || b0.Line != xx.B || b0.Pos != xx.C {
 		res.Counters["skipped:setup_did_not_reach_state"]++
@@ -245,6 +284,13 @@ func execC14(x *Ctx, sc *wire.Scenario) *wire.Result {
 			// the candidate was accepted and the menu closed: this wait is still judged,
 			// later keys start new completions on a different word
 			closed = true
+			// ... if a completion is what changed the line: the key was a completion command, or a
+			// menu was open before it (a "menu key" typed with no menu open is an ordinary command)
+			cmd := sc.Script[i-1].Cmd
+			prev := waitAfter(out, i-1)
+			if !(cmd == "complete" || cmd == "menu-complete" || cmd == "menu-complete-backward" || (prev != nil && prev.Local == "menu-select")) {
+				break
+			}
 		}
 		res.Nontrivial = true
 		key := lastCmd(sc, i)
@@ -333,8 +379,20 @@ func genC15(g *Gen, tier string, idx int) *wire.Scenario {
 	if g.P(40) {
 		x.Prefix = "p"
 	}
+	// values as applications offer them, not only lower-case words: upper case, underscores, dashes,
+	// dots, a lone punctuation character, one-letter values, values that are prefixes of each other
+	special := []string{"ERROR", "ERRNO", "Error", "_", "__", "_x", "x_", "-", "--", "--all", "-v", ".", "..", "~", "E", "WARN",
+		"NULL", "a", "ab", "abc", "A", "0", "10", "x.y", "x/y", "x:y", "x=y", "@home", "%1", "+x", "é", "日本"}
+	nspecial := 0
+	if g.P(35) {
+		nspecial = g.Range(1, 4)
+	}
 	for len(spec.Cands) < n {
 		v := x.Prefix + fmt.Sprintf("%s%d", strings.Repeat(string("abcdefg"[g.N(7)]), g.Range(1, 4)), len(spec.Cands))
+		if nspecial > 0 && g.P(50) {
+			v = x.Prefix + Pick(g, special)
+			nspecial--
+		}
 		if g.P(10) {
 			v += strings.Repeat("w", g.Range(10, 40)) // long values
 		}
